@@ -47,6 +47,10 @@ theorem foldl_pres {α β : Type} (π : Stack → β) (f : Stack → α → Stac
 @[simp] theorem base_sendSd (s : Stack) (es : List SDEntry) (d : Dest) : base (s.sendSd es d) = base s := by
   unfold sendSd; split; rfl; simp only []; split; rfl; split <;> rfl
 
+@[simp] theorem base_with_flushLog (s : Stack) (x : List (Dest × List SDEntry)) : base { s with flushLog := x } = base s := rfl
+@[simp] theorem base_flushTo (s : Stack) (es : List SDEntry) (d : Dest) : base (s.flushTo es d) = base s := by
+  unfold flushTo; rw [base_sendSd]; rfl
+
 @[simp] theorem base_newCollector (s : Stack) (d : Dest) : base (s.newCollector d).1 = base s := rfl
 @[simp] theorem base_appendCollector (s : Stack) (c : Nat) (e : SDEntry) : base (s.appendCollector c e) = base s := rfl
 
@@ -58,7 +62,7 @@ theorem foldl_pres {α β : Type} (π : Stack → β) (f : Stack → α → Stac
     · simp
 
 @[simp] theorem base_collectorTimeout (s : Stack) (c : Nat) : base (s.collectorTimeout c) = base s := by
-  unfold collectorTimeout; split; rfl; simp only []; rw [base_sendSd]; rfl
+  unfold collectorTimeout; split; rfl; simp only []; rw [base_flushTo]; rfl
 
 @[simp] theorem base_createTask (s : Stack) (k : TaskKind) : base (s.createTask k).1 = base s := rfl
 @[simp] theorem base_cancelTask (s : Stack) (t : Nat) : base (s.cancelTask t) = base s := by
